@@ -14,6 +14,7 @@ UNIT = dict(
         dict(file=B, kind='struct', name='Bookmark'),
     ],
     functions=[
+        dict(file=B, impl='Bookmark', name='new', rules=dict(no_sink=True)),
         dict(file=B, impl='Document', name='add_bookmark', rules=dict(no_sink=True)),
         dict(file=D, impl='Document', name='recursive_fix_pages', rules=dict(no_sink=True, pre_subst=[SLICE])),
         dict(file=D, impl='Document', name='adjust_zero_pages', rules=dict(no_sink=True)),
